@@ -71,6 +71,14 @@ try:
                + ' || META ' + strs([meta.node, meta.name, meta.uri.replace(nodes_root, '<NODES>'), meta.environment])
                + ' || DMETA ' + strs([d['__reclass__']['node'], d['__reclass__']['name'], d['__reclass__']['uri'].replace(nodes_root, '<NODES>'), d['__reclass__']['environment'], d['environment']])
                + ' || KEYS ' + strs(sorted(d.keys())))
+        # what Python received is Python's to edit: later views still show the rendered data
+        first = canon(p)
+        if isinstance(p, dict):
+            p.clear(); p['__edited__'] = 1
+        if isinstance(d.get('parameters'), dict):
+            d['parameters'].clear(); d['parameters']['__edited__'] = 2
+        again = canon(ni.parameters) == first and canon(ni.as_dict()['parameters']) == first
+        out += ' || AGAIN ' + ('T' if again else 'F')
     except BaseException as e:
         out = 'conv ' + exc(e)
 except BaseException as e:
@@ -99,6 +107,13 @@ try:
            + ' || DA ' + ix(d['applications']) + ' || DC ' + ix(d['classes']) + ' || DN ' + strs(sorted(d['nodes'].keys()))
            + ' || SAME ' + ('T' if all(canon(d['nodes'][n]['parameters']) == canon(inv.nodes[n].parameters) for n in d['nodes']) else 'F')
            + ' || KEYS ' + strs(sorted(d.keys())))
+    first = {n: canon(inv.nodes[n].parameters) for n in d['nodes']}
+    for n in d['nodes']:
+        d['nodes'][n]['parameters'].clear()
+        inv.nodes[n].parameters.clear()
+    d2 = inv.as_dict()
+    again = all(canon(d2['nodes'][n]['parameters']) == first[n] and canon(inv.nodes[n].parameters) == first[n] for n in first)
+    out += ' || AGAIN ' + ('T' if again else 'F')
 except BaseException as e:
     out = exc(e)
 "#,
